@@ -1453,7 +1453,6 @@ Proof.
 Qed.
 
 Theorem program_balanced_refuted :
-  (exists L, run_program 5%nat [] wit_self_assign = Some L /\ ~ balanced L) /\
   (exists L, run_program 5%nat [true; true; false] wit_while_cond = Some L /\ ~ balanced L) /\
   (exists L, run_program 5%nat [] wit_for_bound = Some L /\ ~ balanced L) /\
   (exists L, run_program 5%nat [] wit_continue_header = Some L /\ ~ balanced L) /\
@@ -1463,6 +1462,11 @@ Proof. repeat split; apply unbalanced_witness; vm_compute; reflexivity. Qed.
 
 (* ... and the static discipline rejects exactly these *)
 Lemma witnesses_rejected :
-  map program_ok [wit_self_assign; wit_while_cond; wit_for_bound; wit_continue_header; wit_continue_foreach; wit_return_in_while]
-  = [false; false; false; false; false; false].
+  map program_ok [wit_while_cond; wit_for_bound; wit_continue_header; wit_continue_foreach; wit_return_in_while]
+  = [false; false; false; false; false].
+Proof. vm_compute. reflexivity. Qed.
+
+(* since the repair of VisitAssignStmt (a non-temporary right side is copied before the target is freed),
+   assigning a variable to itself is balanced and accepted *)
+Lemma self_assign_accepted : program_ok wit_self_assign = true.
 Proof. vm_compute. reflexivity. Qed.
